@@ -96,6 +96,10 @@ DeleteLink(i, sn, so, dn, do) ==
 DeleteNode(i, n) ==
   /\ n \in st[i].live /\ n # 0 /\ st[i].children[n] = <<>>
   /\ st' = [st EXCEPT ![i] = DeleteNodeS(@, n)] /\ res' = [k |-> "ok"]
+(* hugr[n].metadata is a dictionary the user may fill at any time (the root's included): the node's metadata becomes m *)
+SetMeta(i, n, m) ==
+  /\ n \in st[i].live
+  /\ st' = [st EXCEPT ![i].meta[n] = m] /\ res' = [k |-> "ok"]
 (* a query on a node that was deleted: KeyError, nothing changes *)
 TouchDead(i, n) ==
   /\ n \in (0..(st[i].next - 1)) \ st[i].live
